@@ -459,10 +459,10 @@ def quiet_picotool():
         pass
 
 
-def parmap(fn, items, procs=16, chunksize=None):
+def parmap(fn, items, procs=16, chunksize=None, min_parallel=64):
     """Fork-based parallel map for pure functions of picklable arguments."""
     import multiprocessing as mp
-    if len(items) < 64 or procs <= 1:
+    if len(items) < min_parallel or procs <= 1:
         return [fn(x) for x in items]
     ctx = mp.get_context('fork')
     with ctx.Pool(procs) as pool:
